@@ -517,7 +517,7 @@ impl Property for C09Prop {
                 // of the result and one beyond each end; five second slices), sequence literal and parameter
                 let m = idx.len() as i64;
                 let tail = b.is_none() && c.is_none();
-                if tail || a.unwrap_or(0).wrapping_add(b.unwrap_or(1).wrapping_mul(3)).wrapping_add(c.unwrap_or(2).wrapping_mul(7)).rem_euclid(4) == 0 {
+                if m <= 12 && (tail || a.unwrap_or(0).wrapping_add(b.unwrap_or(1).wrapping_mul(3)).wrapping_add(c.unwrap_or(2).wrapping_mul(7)).rem_euclid(4) == 0) {
                     stats.label("slice used at once (chained index / slice)");
                     let picked = seq_elems(&expected);
                     for k in -(m + 1)..=m {
@@ -568,6 +568,19 @@ impl Property for C09Prop {
                     }
                 }
                 Verdict::Pass
+            }
+            "program" => {
+                // a program with the value the documented selection gives, written as a literal
+                let text = case["text"].as_str().unwrap_or("");
+                let expected = case["expected"].as_str().unwrap_or("");
+                stats.evals(2);
+                stats.nontrivial(text);
+                stats.label("one slicing operation executed repeatedly with changing bounds");
+                let (got, want) = (run::run_text(text, true), run::run_text(expected, true));
+                match (&got, &want) {
+                    (Outcome::Value(g), Outcome::Value(w)) if lit::from_var(g).is_some() && lit::from_var(g) == lit::from_var(w) => Verdict::Pass,
+                    _ => fail("C09:slice:repeated", format!("`{text}`: expected {expected}, got {}", got.short())),
+                }
             }
             _ => Verdict::Discard("unknown op"),
         }
@@ -685,6 +698,58 @@ pub fn run(session: &Session) -> i32 {
                     cases.push(json!({"seq": seq, "op": "slice", "a": a, "b": b, "c": c, "colon2": !c.is_null()}));
                 }
                 cases.push(json!({"seq": seq, "op": "slice", "a": a, "b": b, "c": null, "colon2": true}));
+            }
+        }
+    }
+    // long sequences (lengths around 64, 128, 256, 1000; strings of ASCII and of mixed widths, arrays):
+    // len, the indices at both ends and around the powers of two, a handful of slices
+    for n in [63usize, 64, 65, 66, 127, 128, 129, 255, 256, 257, 1000] {
+        let ascii: String = (0..n).map(|k| char::from(b'a' + (k % 26) as u8)).collect();
+        let mixed: String = (0..n).map(|k| CHARS[k % 4]).collect();
+        let array: Vec<Json> = (0..n as i64).map(|k| json!(k * 3 + 1)).collect();
+        for seq in [json!(ascii), json!(mixed), json!(array)] {
+            cases.push(json!({"seq": seq, "op": "len"}));
+            let n = n as i64;
+            for i in [0, 1, 62, 63, 64, 65, n - 2, n - 1, n, -1, -2, -n, -n - 1, -64, -65] {
+                cases.push(json!({"seq": seq, "op": "at", "i": i}));
+            }
+            for (a, b, c) in [(Json::Null, Json::Null, Json::Null), (json!(0), Json::Null, Json::Null), (json!(1), Json::Null, Json::Null), (json!(60), Json::Null, Json::Null), (Json::Null, json!(-1), Json::Null), (json!(62), json!(67), Json::Null), (Json::Null, Json::Null, json!(-1)), (json!(-3), Json::Null, Json::Null), (Json::Null, Json::Null, json!(7)), (json!(64), json!(2), json!(-9))] {
+                cases.push(json!({"seq": seq, "op": "slice", "a": a, "b": b, "c": c, "colon2": !c.is_null()}));
+            }
+        }
+    }
+    // one slicing operation executed again and again with bounds that change between the executions while
+    // the sequence stays (a captured constant, a literal, a parameter): each execution selects by its own bounds
+    for (seq_text, is_str, len) in [("[10, 11, 12, 13, 14, 15, 16]", false, 7usize), ("\"abcdefg\"", true, 7)] {
+        let elems: Vec<Json> = if is_str { "abcdefg".chars().map(|c| json!(c.to_string())).collect() } else { (10..17).map(|k| json!(k)).collect() };
+        let render = |idx: Vec<usize>| -> String {
+            if is_str { format!("\"{}\"", idx.iter().map(|i| elems[*i].as_str().unwrap()).collect::<String>()) } else { format!("[{}]", idx.iter().map(|i| elems[*i].to_string()).collect::<Vec<_>>().join(", ")) }
+        };
+        for (form, which) in [("s[::k]", 2), ("s[k:]", 0), ("s[:k]", 1), ("s[k::2]", 0), ("s[1:k:1]", 1), ("s[5:0:k]", 2)] {
+            let values: &[i64] = if which == 2 { &[1, 2, -1, 3, -2, 1] } else { &[0, 2, -1, 5, 9, -9, 0] };
+            let want: Vec<String> = values
+                .iter()
+                .map(|k| {
+                    let (a, b, c) = match form {
+                        "s[::k]" => (None, None, Some(*k)),
+                        "s[k:]" => (Some(*k), None, None),
+                        "s[:k]" => (None, Some(*k), None),
+                        "s[k::2]" => (Some(*k), None, Some(2)),
+                        "s[1:k:1]" => (Some(1), Some(*k), Some(1)),
+                        _ => (Some(5), Some(0), Some(*k)),
+                    };
+                    render(py_slice(len, a, b, c))
+                })
+                .collect();
+            let calls: Vec<String> = values.iter().map(|k| format!("f({k})")).collect();
+            let expected = format!("({})", want.join(", "));
+            for text in [
+                format!("s := {seq_text}; f := (k: int) -> any {{ return {form}; }}; ({})", calls.join(", ")),
+                format!("f := (k: int) -> any {{ return {}; }}; ({})", form.replace("s[", &format!("{seq_text}[")), calls.join(", ")),
+                format!("s := *(mut any {seq_text}); g := (s: {}, k: int) -> any {{ return {form}; }}; f := (k: int) -> any {{ return g({seq_text}, k); }}; ({})", if is_str { "string" } else { "[int]" }, calls.join(", ")),
+                format!("s := {seq_text}; out := mut [any] []; for k in [{}]~ {{ out += [{form}]; }}; ks := *out; ({})", values.iter().map(|k| k.to_string()).collect::<Vec<_>>().join(", "), (0..values.len()).map(|i| format!("ks[{i}]")).collect::<Vec<_>>().join(", ")),
+            ] {
+                cases.push(json!({"op": "program", "seq": "", "text": text, "expected": expected}));
             }
         }
     }
